@@ -6,6 +6,7 @@ import (
 	"fmt"
 	"go/types"
 	"sort"
+	"strings"
 
 	"golang.org/x/tools/go/ssa"
 )
@@ -23,7 +24,17 @@ type State struct {
 	locals map[*ssa.Alloc]Value
 	heap   map[string]*Term
 	defers []deferEntry
+	// lazily havocked region prefixes (for regions not yet touched when a callee's
+	// frame named them): first use yields a fresh array instead of the entry one
+	lazy []lazyHavoc
 }
+
+type lazyHavoc struct {
+	prefix string
+	id     int
+}
+
+var lazySeq int
 
 func (s *State) clone() *State {
 	n := &State{pc: s.pc, locals: make(map[*ssa.Alloc]Value, len(s.locals)), heap: make(map[string]*Term, len(s.heap))}
@@ -34,6 +45,7 @@ func (s *State) clone() *State {
 		n.heap[k] = v
 	}
 	n.defers = append([]deferEntry{}, s.defers...)
+	n.lazy = append([]lazyHavoc{}, s.lazy...)
 	return n
 }
 
@@ -49,6 +61,12 @@ func (s *State) region(name string, srt *Sort) *Term {
 	}
 	regionSorts[name] = srt
 	t := Var(name, srt)
+	for i := len(s.lazy) - 1; i >= 0; i-- {
+		if strings.HasPrefix(name, s.lazy[i].prefix) {
+			t = Var(fmt.Sprintf("havoc.%s!z%d", name, s.lazy[i].id), srt)
+			break
+		}
+	}
 	s.heap[name] = t
 	return t
 }
@@ -75,6 +93,19 @@ func mergeStates(sts []*State) *State {
 		return sts[0].clone()
 	}
 	out := &State{locals: map[*ssa.Alloc]Value{}, heap: map[string]*Term{}}
+	for _, s := range sts {
+		for _, lz := range s.lazy {
+			dup := false
+			for _, o := range out.lazy {
+				if o == lz {
+					dup = true
+				}
+			}
+			if !dup {
+				out.lazy = append(out.lazy, lz)
+			}
+		}
+	}
 	var pcs []*Term
 	for _, s := range sts {
 		pcs = append(pcs, s.pc)
@@ -224,8 +255,17 @@ func (x *Exec) load(st *State, p *Ptr) Value {
 		}
 	}
 	x.assumeTrue(WFValue(out))
+	x.entryHeapFacts(st, p, comps)
 	x.assumeTrue(x.refsBelowClock(st, out))
 	return out
+}
+
+// fromEntryHeap: the term is a (nested) select on an entry-state region variable.
+func fromEntryHeap(t *Term) bool {
+	for t.Op == "select" {
+		t = t.Args[0]
+	}
+	return t.Op == "var" && !strings.Contains(t.Name, "!")
 }
 
 // refsBelowClock: every reference found in memory was allocated before now.
@@ -303,4 +343,41 @@ func elemArr(st *State, elemT types.Type, c Comp, ref *Term) *Term {
 func setElemArr(st *State, elemT types.Type, c Comp, ref, arr *Term) {
 	name := elemsBase(elemT) + c.Suffix
 	st.setRegion(name, Store(st.region(name, SArr(SArr(c.Sort))), ref, arr))
+}
+
+// entryHeapFacts instantiates, at the indices of this load, the invariant of
+// the entry heap: every reference stored in memory at function entry predates
+// the entry clock (so it differs from everything allocated during the run).
+func (x *Exec) entryHeapFacts(st *State, p *Ptr, comps []Comp) {
+	if p.Kind != PObj && p.Kind != PElem {
+		return
+	}
+	for _, c := range comps {
+		if !(c.Sort == SInt && c.T == nil && !hasAnySuffix(c.Suffix, ".off", ".len", ".cap")) {
+			continue
+		}
+		name, srt := leafRegion(p, c)
+		cur := st.region(name, srt)
+		_ = cur
+		base := Var(name, srt)
+		var v *Term
+		if p.Kind == PObj {
+			v = Select(base, p.Ref)
+		} else {
+			v = Select(Select(base, p.Ref), p.Idx)
+		}
+		if v.open {
+			// inside a quantified spec: the invariant of the entry region as an axiom
+			r, i := BVar("r?eh", SInt), BVar("i?eh", SInt)
+			c0 := Var(clockName, SInt)
+			if p.Kind == PObj {
+				x.assumeNeed(name, Forall([]*Term{r}, Implies(Le(r, c0), Le(Select(base, r), c0)), Select(base, r)))
+			} else {
+				x.assumeNeed(name, Forall([]*Term{r, i}, Implies(Le(r, c0), Le(Select(Select(base, r), i), c0)), Select(Select(base, r), i)))
+			}
+			continue
+		}
+		// only objects that existed at entry (fresh objects of callees also live in the unchanged region)
+		x.assumeTrue(Implies(Le(p.Ref, Var(clockName, SInt)), Le(v, Var(clockName, SInt))))
+	}
 }
